@@ -373,11 +373,14 @@ pub fn gen(args: &Args, out: &mut dyn Write) {
                 }
                 let mut calls = vec![];
                 let mut at = 0;
+                // every third history: a cut-out shader (the same for all calls of the history)
+                let disc = ((pi + ci) % 3 == 1) as u8;
                 for &g in comp {
                     let ord = &perm[at..at + g];
                     at += g;
                     let mut ctx = confl.clone();
                     ctx["sort"] = json!(rng.below(3));
+                    ctx["disc"] = json!(disc);
                     let need = 3 * *ord.iter().max().unwrap();
                     calls.push(json!({"ctx": ctx, "ord": ord, "nv": need.max(all_nv.min(need + 3 * rng.below(2) as usize)),
                                       "via": if rng.chance(1, 4) { "batch" } else { "render" }}));
